@@ -168,6 +168,18 @@ def two_senses_without_synset(L, r):
 
 
 @defect
+def same_entry_id_same_synset(L, r):
+    # two entries sharing an id (E101), each with one sense in the same synset: neither
+    # entry has a redundant sense
+    i, j = r.sample(range(4), 2)
+    a, b = L['entries'][i], L['entries'][j]
+    b['id'] = a['id']
+    b['senses'] = b['senses'][:1]
+    a['senses'] = a['senses'][:1]
+    b['senses'][0]['synset'] = a['senses'][0]['synset']
+
+
+@defect
 def two_empty_ids(L, r):
     L['entries'][2]['id'] = ''
     L['entries'][3]['id'] = ''
